@@ -123,6 +123,9 @@ func GenLeaf(t *rapid.T, tab Table, o ClauseOpt) Clause {
 			l = ColArg(c.Name, rapid.SampledFrom(ordComps).Draw(t, "comp"), others[rapid.IntRange(0, len(others)-1).Draw(t, "other")].Name)
 		case pick == 4:
 			n := rapid.IntRange(0, 4).Draw(t, "listn")
+			if rapid.IntRange(0, 5).Draw(t, "longlist") == 0 {
+				n = rapid.IntRange(12, 20).Draw(t, "longlistn") // long enough for set implementations other than a scan
+			}
 			li := make([]int, n)
 			for i := range li {
 				li[i] = intConstFor(t, c)
@@ -199,6 +202,9 @@ func GenLeaf(t *rapid.T, tab Table, o ClauseOpt) Clause {
 			}
 		case pick == 4:
 			n := rapid.IntRange(0, 4).Draw(t, "listn")
+			if rapid.IntRange(0, 5).Draw(t, "longlist") == 0 {
+				n = rapid.IntRange(12, 20).Draw(t, "longlistn")
+			}
 			ls := make([]string, n)
 			for i := range ls {
 				ls[i] = strConstFor(t, c)
